@@ -9,6 +9,8 @@ import z3
 from .values import (range_axioms, SBytes, SInt, SBool, Sym, Ref, zint, zbool, mk_bool, fresh_name, as_const_int,
                      Unsupported, IntS)
 
+import os as _os
+CROSSCHECK = bool(_os.environ.get("PVC_CROSSCHECK"))
 SOLVER_TIMEOUT_MS = 10000
 FEAS_TIMEOUT_MS = 1500
 
@@ -350,6 +352,19 @@ class State:
         ob.time += dt
         if r == z3.unsat:
             STATS.by_backend["z3"] += 1
+            if CROSSCHECK:
+                # thorough tier: every VC z3 discharges is re-checked by cvc5; a definite disagreement is an engine/solver
+                # problem (undecided), never a pass
+                from .cvc5backend import check_smt2
+                r2 = check_smt2(s.to_smt2(), 5000)
+                if r2 == "unsat":
+                    STATS.by_backend["cvc5_agree"] = STATS.by_backend.get("cvc5_agree", 0) + 1
+                elif r2 == "sat":
+                    STATS.by_backend["cvc5_disagree"] = STATS.by_backend.get("cvc5_disagree", 0) + 1
+                    ob.detail += " [SOLVER DISAGREEMENT: z3 unsat, cvc5 sat]"
+                    return "unknown"
+                else:
+                    STATS.by_backend["cvc5_no_answer"] = STATS.by_backend.get("cvc5_no_answer", 0) + 1
             return "unsat"
         if r == z3.sat:
             return "sat"
